@@ -607,6 +607,8 @@ struct World {
     fails: Vec<String>,
     syncs: usize,
     split: bool,
+    /// experiment only (`rh` / `rd`): change lists written on the peer and not yet delivered
+    held: Vec<Vec<Change>>,
 }
 
 fn cells_of(vals: &[klukai_types::api::SqliteValue]) -> Vec<String> {
@@ -674,15 +676,6 @@ impl World {
         while !self.window_ok(Instant::now(), lo_ms, hi_ms) && t0.elapsed() < Duration::from_secs(4) {
             tokio::time::sleep(Duration::from_millis(4)).await;
         }
-    }
-
-    fn matched_deltas(&mut self) -> String {
-        let mut out = vec![];
-        for s in &mut self.subs {
-            let m = s.stats.matched.load(Ordering::SeqCst);
-            out.push((m - s.matched_seen).to_string());
-        }
-        if out.is_empty() { "-".into() } else { out.join(",") }
     }
 
     fn note_left_unsafe(&mut self, stmts: &[Stmt]) {
@@ -864,6 +857,10 @@ impl World {
         let shown: Vec<String> = sets.iter().map(|c| show_changes(c)).collect();
         let tmo = Duration::from_secs(60);
         match mode {
+            "rh" => {
+                self.held.extend(sets);
+                return Ok(format!("ok held={} ch={}", self.held.len(), shown.join("|")));
+            }
             "rp" => {
                 for chs in &sets {
                     if chs.len() < 2 {
@@ -1278,6 +1275,7 @@ async fn start_world(dir: &std::path::Path) -> Result<World, String> {
         fails: vec![],
         syncs: 0,
         split: false,
+        held: vec![],
     })
 }
 
@@ -1301,7 +1299,23 @@ async fn run_case(ops: &[String], dir: &std::path::Path) -> Result<Outcome, Stri
                 Some(st) => w.local_tx(&st).await,
                 None => Err("bad-op".into()),
             },
-            [m @ ("r" | "rp" | "rb"), txs] => {
+            ["rd", idx] => match idx.parse::<usize>().ok().filter(|i| *i < w.held.len()) {
+                Some(i) => {
+                    w.begin_group().await;
+                    let before = w.matched_snapshot();
+                    let chs = w.held[i].clone();
+                    let cv = World::changeset(&chs, 0, chs.len() - 1);
+                    match process_multiple_changes(w.agent.clone(), w.bookie.clone(), vec![(cv, ChangeSource::Broadcast, Instant::now())], Duration::from_secs(60)).await {
+                        Ok(()) => {
+                            w.t_last_send = Instant::now();
+                            Ok(format!("ok ch={} m={}", show_changes(&chs), w.matched_since(&before)))
+                        }
+                        Err(e) => Err(format!("process_multiple_changes: {e}")),
+                    }
+                }
+                None => Err("bad-op".into()),
+            },
+            [m @ ("r" | "rp" | "rb" | "rh"), txs] => {
                 let parsed: Option<Vec<Vec<Stmt>>> = txs.split('|').map(parse_tx).collect();
                 match parsed {
                     Some(p) if *m == "rb" || p.len() == 1 => w.remote(m, &p).await,
